@@ -16,7 +16,8 @@ FileConfig, EnvironmentConfig (and MemoryConfig's getters return their own field
 integer cast is applied to a value read from the file; the env loader parses into the field type.  (4) Range checks: for port, batch_size,
 fault_percentage and num_workers the condition under which is_valid_config sets `is_valid = false` has the truth table of the documented range;
 is_valid starts true, is only ever set to false, and is the return value; the seed length rule mentions 32.  (5) Refusal: a make_config error and an invalid
-configuration both end in process::exit(1) before any worker thread is spawned; an unknown YAML key returns Err.
+configuration both end in process::exit(1) before any worker thread is spawned; an unknown YAML key returns Err; the Result of every parse / try_from applied to a setting's text is enforced (unwrap/expect/?/match on Err that
+refuses), never swallowed by ok(), unwrap_or(..) or a default; the seed length rule has the truth table of `len == 32`.
 (6) Sibling semantics: both loaders lower-case client_stats and compare with "yes"/"on", decode the seed with the same encoding and parse kms_protection
 with the same FromStr.
 """
